@@ -295,6 +295,17 @@ func TestSim(t *testing.T) {
 	emit(map[string]interface{}{"done": true})
 }
 
+// TestMain: in the race build the testing package marks the test failed for
+// every report (including the harness's own, deliberately unsynchronised
+// state); results are taken from the result file, not from the exit code.
+func TestMain(m *testing.M) {
+	code := m.Run()
+	if raceBuild {
+		code = 0
+	}
+	os.Exit(code)
+}
+
 var runCounter int
 
 var theT *testing.T
@@ -336,7 +347,7 @@ func runOne(world, prop string, seed uint64, rp *Replay) *Result {
 	var simElapsed time.Duration
 	var bubblePanic interface{}
 	var bubbleStacks string
-	func() {
+	inner := func() {
 		defer func() {
 			if r := recover(); r != nil {
 				bubblePanic = r
@@ -368,7 +379,15 @@ func runOne(world, prop string, seed uint64, rp *Replay) *Result {
 			}()
 			wf(rc)
 		})
-	}()
+	}
+	if raceBuild {
+		// a detected race makes synctest.Test end its goroutine (FailNow)
+		ch := make(chan struct{})
+		go func() { defer close(ch); inner() }()
+		<-ch
+	} else {
+		inner()
+	}
 	close(done)
 	simrt.Install(nil)
 	simnet.Install(nil)
@@ -391,6 +410,12 @@ func runOne(world, prop string, seed uint64, rp *Replay) *Result {
 			os.Exit(4)
 		}
 	}
+	if raceBuild {
+		if sigs := collectRaces(); len(sigs) > 0 {
+			rc.Probe("data_races_in_daemon_code")
+			rc.Violate(rc.Prop, "data-race", "unsynchronised accesses in daemon code: %s", strings.Join(sigs, "; "))
+		}
+	}
 	res := rc.Res
 	res.OK = rc.viol == nil
 	res.Violation = rc.viol
@@ -409,7 +434,7 @@ func runOne(world, prop string, seed uint64, rp *Replay) *Result {
 	if *flagDump {
 		os.Stdout.Write(rc.log.Bytes())
 	}
-	if rc.viol != nil && *flagReplays != "" && rp == nil && rc.Res.Replay == "" {
+	if rc.viol != nil && *flagReplays != "" && rp == nil && rc.Res.Replay == "" && rc.viol.Class != "data-race" && rc.viol.Class != "deadlock" {
 		// worlds normally write their own replay; fall back to seed-only
 		rc.writeReplay(nil, nil)
 	}
